@@ -37,13 +37,25 @@ pub struct ProveError { pub _p: () }
 /// execution traces of one run: tagged with the circuit that was run
 pub struct Traces { pub of: Ghost<Cid> }
 /// committed preprocessed data + AIRs: tagged with the circuit they were derived from
-pub struct CircuitProverData { pub for_circuit: Ghost<Cid> }
+pub struct CircuitProverData { pub for_circuit: Ghost<Cid>, pub common: CommonData }
+impl CircuitProverData { pub fn common_data(&self) -> (r: &CommonData) ensures *r == self.common { &self.common } }
 /// Rc<CircuitProverData> (the reference count is erased)
 pub type RcData = CircuitProverData;
-pub fn rc_clone(d: &RcData) -> (r: RcData) ensures r.for_circuit@ == d.for_circuit@ { CircuitProverData { for_circuit: Ghost(d.for_circuit@) } }
+#[verifier::external_body]
+pub fn rc_clone(d: &RcData) -> (r: RcData) ensures r.for_circuit@ == d.for_circuit@, r.common == d.common { unimplemented!() }
 pub fn rc_new(d: CircuitProverData) -> (r: RcData) ensures r == d { d }
 /// a batch proof: tagged with the circuit whose traces it proves, the circuit whose preprocessed commitment it carries, and the prover's config
-pub struct BatchStarkProof { pub traces_of: Ghost<Cid>, pub prep_of: Ghost<Cid>, pub cfg: Ghost<int>, pub packing: Ghost<int> }
+pub struct BatchStarkProof { pub traces_of: Ghost<Cid>, pub prep_of: Ghost<Cid>, pub cfg: Ghost<int>, pub packing: Ghost<int>, pub proof: BatchProofStub, pub stark_common: CommonData }
+/// p3_batch_stark::CommonData (preprocessed binding + lookup contexts), opaque: `id` identifies the committed preprocessed data it binds
+pub struct CommonData { pub id: Ghost<int> }
+pub struct OpenedInstance { pub _p: () }
+pub struct BatchOpened { pub instances: Vec<OpenedInstance> }
+pub struct BatchProofStub { pub opened_values: BatchOpened }
+#[derive(Clone, Copy)] pub struct Fv(pub u64);
+/// `vec![vec![]; n]`
+#[verifier::external_body]
+pub fn empty_rows(n: usize) -> (r: Vec<Vec<Fv>>) ensures r@.len() == n, forall|i: int| 0 <= i < n ==> (#[trigger] r@[i])@.len() == 0 { unimplemented!() }
+pub enum RecursionInput<'a> { BatchStark { proof: &'a BatchStarkProof, common_data: &'a CommonData, table_public_inputs: Vec<Vec<Fv>> }, Other }
 /// a layer prover: built for one configuration and one table packing / constraint profile
 pub struct BatchStarkProver { pub cfg: Ghost<int>, pub packing: Ghost<int> }
 impl BatchStarkProver {
@@ -235,8 +247,18 @@ def build():
             assert(cached.prover.cfg@ == config.id@); // @@A:H_next_layer_cache_same_config
         }''', nth=0)
 
+    # ---------------------------------------------------------------- RecursionOutput::into_recursion_input (output of one layer -> input of the next)
+    ir = u.extract(R, r'impl<SC> RecursionOutput<SC>', 'into_recursion_input', 'RecursionOutput::into_recursion_input')
+    ir.set_sig('R11', "fn into_recursion_input(&self) -> RecursionInput<'_>")
+    ir.rewrite_re('R6', r'vec!\[vec!\[\]; num_tables\]', 'empty_rows(num_tables)', min_count=1)
+    ir.ensures('the_next_layer_verifies_this_proof_against_the_common_data_bound_inside_it_with_no_table_public_inputs',
+               '''ret matches RecursionInput::BatchStark { proof, common_data, table_public_inputs } && *proof == self.0 && *common_data == self.0.stark_common
+                && table_public_inputs@.len() == self.0.proof.opened_values.instances@.len() && forall|i: int| 0 <= i < table_public_inputs@.len() ==> (#[trigger] table_public_inputs@[i])@.len() == 0''')
     u.text('verus! {')
     for f in (fp, hit, fill, nx):
         u.emit(f)
+    u.text('impl RecursionOutput {')
+    u.emit(ir)
+    u.text('}')
     u.text('}')
     return u
